@@ -250,10 +250,16 @@ def gen_scenario(rng, idx):
                 "packages": {pkg + "a": {"component.xml": PKG_COMPONENT}} if use_import else {},
                 "entry": rng.choice(["url", "file"])}
     # schema scenario
-    nb = rng.choice([0, 1, 2])
+    nb = rng.choice([0, 1, 2, 3])
     files = {}
     ext = ""
-    if nb >= 1:
+    if nb == 3:
+        # several bases in one list
+        ext = ' extends="../bases/b1.xml ../bases/b3.xml b4.xml"'
+        files["bases/b1.xml"] = '<schema>\n  <key name="b1" default="1"/>\n</schema>\n'
+        files["bases/b3.xml"] = '<schema>\n  <key name="b3" default="3"/>\n</schema>\n'
+        files["main/b4.xml"] = '<schema>\n  <key name="b4" default="4"/>\n</schema>\n'
+    elif nb >= 1:
         ext = ' extends="../bases/b1.xml"'
         b1ext = ""
         if nb == 2:
@@ -274,6 +280,10 @@ def gen_scenario(rng, idx):
         if two:
             packages[pkg + "b"] = {"component.xml": '<component>\n  <abstracttype name="pabs"/>\n  <sectiontype name="pb" implements="pabs"/>\n</component>\n'}
         body.append('  <import package="%sa"/>' % pkg)
+        if two and rng.random() < 0.5:
+            body.append('  <import package="%sb"/>' % pkg)          # reached along two paths
+        if rng.random() < 0.4:
+            body.append('  <import package="%sa"/>' % pkg)          # the same import twice
         body.append('  <section type="pa" name="*" attribute="pa"/>')
     body.append('  <key name="own" default="x"/>')
     main_xml = "<schema%s>\n%s\n</schema>\n" % (ext, "\n".join(body))
